@@ -728,6 +728,11 @@ func genCase(t *rapid.T, mode string, forced *failOp) (p *casePayload, discard s
 			call = "(" + lit + "(" + args + "))"
 		case "direct":
 			call = fn + "(" + args + ")"
+			if g.chance("call-copy", 15) {
+				// a copied function must report positions like the original
+				call = "copy(" + fn + ")(" + args + ")"
+				g.feat["call:through-copy"] = true
+			}
 		case "import":
 			if g.chance("import-index", 30) {
 				call = home[i] + "[\"" + fn + "\"](" + args + ")"
